@@ -86,7 +86,9 @@ impl From<&Vlan> for Vec<u8> {
     fn from(vlan: &Vlan) -> Self {
         let header = vlan.header.borrow().clone();
         let mut bytes: Vec<u8> = (&header).into();
-        if let Some(inner) = vlan.inner.borrow().clone() {
+        // an error object stands for a layer that could not be parsed: its bytes are still the raw ones
+        let inner = vlan.inner.borrow().clone();
+        if let Some(inner) = inner.filter(|i| !matches!(i.as_ref(), Object::Err(_))) {
             let b: Vec<u8> = inner.as_ref().into();
             bytes.extend_from_slice(&b);
         } else {
